@@ -216,7 +216,8 @@ def hasBig (segs : List Seg) : Bool := segs.any (fun s => s.2.any isBig)
 /-- `ASPath.pack_attribute` -/
 def packAsPath (p : SessParams) (segs : List Seg) : Bytes :=
   if p.asn4 then hdr 2 (packSegs true segs)
-  else hdr 2 (packSegs false (transSegs segs)) ++ (if hasBig segs then hdr 17 (packSegs true segs) else [])
+  else hdr 2 (packSegs false (transSegs segs)) ++
+    (if hasBig (plainSegs segs) then hdr 17 (packSegs true (plainSegs segs)) else [])
 
 /-- `Aggregator.pack_attribute` -/
 def packAggregator (p : SessParams) (asn ip : Nat) : Bytes :=
